@@ -51,6 +51,7 @@ fn main() {
         }
         "C01" => props::c01::run(rest),
         "C02" => props::c02::run(rest),
+        "C03" => props::c03::run(rest),
         "C04" => props::c04::run(rest),
         "C05" => props::c05::run(rest),
         "C09" => props::c09::run(rest),
